@@ -1,7 +1,9 @@
 """bin/check configuration of property C18 (see bin/props.py)."""
 
 PROP = {'lean': 'MpsProps.C18',
- 'theorems': ['Mps.C18.parallelize_returns_results',
+ 'theorems': ['Mps.C18.locked_reader_block',
+              'Mps.C18.locked_reader_consumes_prefix',
+              'Mps.C18.parallelize_returns_results',
               'Mps.C18.workers_all_idle_at_return',
               'Mps.C18.no_deadlock',
               'Mps.C18.steps_bounded',
@@ -25,7 +27,8 @@ PROP = {'lean': 'MpsProps.C18',
                'Mps.C18.gen_parallelize',
                'Mps.C18.gen_search',
                'Mps.C18.gen_alone_and_newPool',
-               'Mps.C18.gen_yield_points'],
+               'Mps.C18.gen_yield_points',
+               'Mps.C18.gen_locked_reader'],
  'suites': [{'name': 'pool', 'quick': 150, 'thorough': 3000}],
  'propfields': {'pool': ['ok', 'results', 'returned', 'searchLen', 'searchNonNil', 'overlap', 'distinct', 'fromStream']},
  'level_text': 'Proof: the pool is modelled as a transition system (caller + W workers, program counters at every channel send/receive, atomic '
